@@ -6,7 +6,7 @@ import ast
 from ..chains import chain_arms
 from ..loader import AnalysisError, call_attr, call_name, dotted, unparse
 from . import c01
-from ..rulekit import arg_of, const_value, def_value, is_none_test, local_defs
+from ..rulekit import arg_of, const_value, def_value, is_none_test, local_defs, must_facts
 from . import c02
 
 SENDER = "aiokafka.producer.sender.Sender"
@@ -431,6 +431,132 @@ def rule_registry_reset(ctx):
             ctx.ob(R, cf, cn, bool(tt) and c2.dominated_by_branch(tt[0], "T", node), "transaction completed without EndTxn although not empty", text="complete-when-empty")
 
 
+def rule_pending_offsets(ctx):
+    R = "pending-offsets-owned"
+    ctx.rep.rule(R, "the queue of consumer offsets waiting for TxnOffsetCommit: every send_offsets_to_transaction call enqueues ONE entry "
+                    "(its group, its own offsets mapping, a future created for it) and gets that future back; an entry already queued -- its request "
+                    "may be in flight, and the reply is matched against the very mapping -- is never altered except that offset_committed removes the "
+                    "partitions a NoError reply acknowledged, resolves the future when none is left and only then pops the entry; only the two "
+                    "error paths drop entries (failing their futures)")
+    MUT = {"update", "pop", "popitem", "clear", "setdefault", "__setitem__", "__delitem__"}
+    n_entries = 0
+    for fi in list(ctx.repo.funcs.values()):
+        if not fi.qualname.startswith(TXN + "."):
+            continue
+        comp = _entry_roles(fi)
+        if not comp and "_pending_txn_offsets" not in unparse(fi.node):
+            continue
+        c = ctx.cfg(fi)
+        touched = False
+        for n in c.nodes:
+            recv = how = None
+            if n.kind == "call" and isinstance(n.ast.func, ast.Attribute):
+                recv, how = n.ast.func.value, n.ast.func.attr
+            elif n.kind in ("store", "delete") and isinstance(n.ast, ast.Subscript):
+                recv, how = n.ast.value, "__setitem__" if n.kind == "store" else "__delitem__"
+            role = _role_of(recv, comp) if recv is not None else None
+            if role is None:
+                continue
+            touched = True
+            if role in (1, "entry") and how in MUT:
+                ok = fi.qualname == f"{TXN}.offset_committed" and how == "__delitem__"
+                ctx.ob(R, fi, n, ok, f"{fi.name} alters the offsets of an entry that is already queued (`{n.text()[:50]}`): the request built from it may be in flight, "
+                                     "and its reply then acknowledges (and deletes) an offset that was never sent", text=f"entry-immutable:{how}")
+            if role == 2 and how in ("set_result", "set_exception", "cancel"):
+                ok = (how == "set_result" and fi.qualname == f"{TXN}.offset_committed") or \
+                     (how == "set_exception" and fi.qualname in (f"{TXN}.error_transaction", f"{TXN}.fatal_error"))
+                ctx.ob(R, fi, n, ok, f"{fi.name} resolves a queued entry's future with {how}", text=f"entry-future:{how}")
+        if comp or touched:
+            n_entries += 1
+    ctx.anchor(n_entries >= 3, f"functions reading entries of _pending_txn_offsets ({n_entries})")
+    # one fresh entry per call, and its future is what the caller gets
+    fa = ctx.fn(f"{TXN}.add_offsets_to_txn")
+    ca = ctx.cfg(fa)
+    apps = [x for x in ca.calls(attr="append") if unparse(x.ast.func.value) == "self._pending_txn_offsets"]
+    ctx.anchor(len(apps) == 1, "one append to _pending_txn_offsets in add_offsets_to_txn")
+    ap = apps[0]
+    e = arg_of(ap.ast, 0)
+    ps = fa.params()
+    okshape = isinstance(e, ast.Tuple) and len(e.elts) == 3 and unparse(e.elts[0]) == ps[2] and unparse(e.elts[1]) == ps[1] and isinstance(e.elts[2], ast.Name)
+    fresh = False
+    if okshape:
+        ds = local_defs(ca, e.elts[2].id)
+        fresh = len(ds) == 1 and isinstance(ds[0].stmt, ast.Assign) and isinstance(ds[0].stmt.value, ast.Call) and call_name(ds[0].stmt.value) == "create_future" and ca.dominates(ds[0], ap)
+    ctx.ob(R, fa, ap, okshape and fresh, "the queued entry is not (group_id, offsets, <future created for this call>)", text="entry-shape")
+    rets = [r for r in ca.nodes if r.kind == "return"]
+    ctx.ob(R, fa, fa.node, bool(rets) and all(okshape and r.ast.value is not None and unparse(r.ast.value) == unparse(e.elts[2]) and ca.dominates(ap, r) for r in rets)
+           and ca.exit not in ca.reachable([ca.entry], avoid={ap}, exc=False),
+           "add_offsets_to_txn can return without having queued an entry of its own, or returns something other than that entry's future: "
+           "the caller's offsets ride on another call's entry", text="own-entry-returned")
+    # offset_committed: pops only when the mapping is empty, after resolving
+    fo = ctx.fn(f"{TXN}.offset_committed")
+    co = ctx.cfg(fo)
+    pops = [x for x in co.calls(attr="popleft") if unparse(x.ast.func.value) == "self._pending_txn_offsets"]
+    ctx.anchor(len(pops) == 1, "popleft in offset_committed")
+    facts = must_facts(co)
+    roles = _entry_roles(fo)
+    okp = any(a[1] == "falsy" and _role_of(ast.parse(a[0], mode="eval").body, roles) == 1 for a in (facts[pops[0]] or ()) if a[1] == "falsy" and _parses(a[0]))
+    ctx.ob(R, fo, pops[0], okp, "the head entry is popped although partitions of it are still unacknowledged", text="pop-when-empty")
+    dels = [n for n in co.nodes if n.kind == "delete" and isinstance(n.ast, ast.Subscript) and _role_of(n.ast.value, roles) == 1]
+    ctx.ob(R, fo, fo.node, len(dels) == 1 and unparse(dels[0].ast.slice) == fo.params()[1] and co.dominates(dels[0], co.exit),
+           "offset_committed does not remove exactly the acknowledged partition from the head entry", text="ack-removes-partition")
+
+
+def _parses(t):
+    try:
+        ast.parse(t, mode="eval")
+        return True
+    except SyntaxError:
+        return False
+
+
+def _is_queue_elem(e):
+    return isinstance(e, ast.Subscript) and unparse(e.value) == "self._pending_txn_offsets"
+
+
+def _role_of(e, roles):
+    """'entry' / 0 / 1 / 2 when the expression denotes a queued entry or its group / offsets / future component."""
+    if isinstance(e, ast.Name):
+        return roles.get(e.id)
+    if _is_queue_elem(e):
+        return "entry"
+    if isinstance(e, ast.Subscript):
+        base = _role_of(e.value, roles)
+        k = const_value(e.slice)
+        if base == "entry" and isinstance(k, int):
+            return k
+    return None
+
+
+def _entry_roles(fi):
+    """local name -> role, for locals bound (directly, by unpacking, by indexing, as loop targets) to entries of the offsets queue."""
+    roles = {}
+    changed = True
+    while changed:
+        changed = False
+        for st in ast.walk(fi.node):
+            src = tgt = None
+            if isinstance(st, ast.Assign) and len(st.targets) == 1:
+                src, tgt = st.value, st.targets[0]
+                r = _role_of(src, roles)
+            elif isinstance(st, (ast.For, ast.AsyncFor)) and unparse(st.iter) == "self._pending_txn_offsets":
+                tgt, r = st.target, "entry"
+            else:
+                continue
+            if r is None:
+                continue
+            if isinstance(tgt, ast.Name):
+                if tgt.id not in roles:
+                    roles[tgt.id] = r
+                    changed = True
+            elif isinstance(tgt, (ast.Tuple, ast.List)) and r == "entry":
+                for i, e in enumerate(tgt.elts):
+                    if isinstance(e, ast.Name) and e.id not in roles:
+                        roles[e.id] = i
+                        changed = True
+    return roles
+
+
 # ---- error -> effect tables ------------------------------------------------------------------
 RETRY = "retry"          # return a back-off (request is re-issued)
 DEAD = "coordinator-dead+retry"
@@ -577,8 +703,22 @@ def rule_error_tables(ctx):
     okc = len(st) == 1 and unparse(st[0].ast.slice) == ff.params()[1] and cf.dominates(lk, st[0])
     ctx.ob(R, ff, ff.node, okc, "coordinator cache not keyed by coordinator type / filled before lookup", text="cache")
     fcd = ctx.fn(f"{SENDER}._coordinator_dead")
-    ctx.ob(R, fcd, fcd.node, any(call_attr(n.ast) == "pop" and unparse(n.ast.func.value) == "self._coordinators" and unparse(arg_of(n.ast, 0)) == fcd.params()[1] for n in ctx.cfg(fcd).calls(attr="pop")),
-           "_coordinator_dead does not drop the cached coordinator", text="dead-pops")
+    ccd = ctx.cfg(fcd)
+    drops = [n for n in ccd.calls(attr="pop") if unparse(n.ast.func.value) == "self._coordinators" and unparse(arg_of(n.ast, 0)) == fcd.params()[1]] + \
+            [n for n in ccd.nodes if n.kind == "delete" and isinstance(n.ast, ast.Subscript) and unparse(n.ast.value) == "self._coordinators" and unparse(n.ast.slice) == fcd.params()[1]]
+    # dropped on every path on which the entry exists (a `del` may be guarded by the membership test, nothing else)
+    okd = bool(drops)
+    if okd:
+        esc = ccd.reachable([ccd.entry], avoid=set(drops), exc=False)
+        if ccd.exit in esc:
+            from ..rulekit import atoms_of_test, must_facts as _mf
+            okd = True
+            for m in esc:
+                for x, l in m.succ:
+                    if x is ccd.exit and l != "exc":
+                        fs = set(_mf(ccd)[m] or ()) | (atoms_of_test(m.ast, l == "T") if m.kind == "test" and l in ("T", "F") else set())
+                        okd = okd and any(a[1] == "not in" and a[2] == "self._coordinators" for a in fs)
+    ctx.ob(R, fcd, fcd.node, okd, "_coordinator_dead does not drop the cached coordinator", text="dead-pops")
     # transactional requests go to the transaction coordinator; txn offset commit to the group coordinator
     for m, kind in (("_do_add_partitions_to_txn", "TRANSACTION"), ("_do_add_offsets_to_txn", "TRANSACTION"), ("_do_txn_commit", "TRANSACTION"), ("_do_txn_offset_commit", "GROUP")):
         f2 = ctx.fn(f"{SENDER}.{m}")
@@ -601,6 +741,7 @@ def run(ctx):
     c02.rule_flush(ctx)
     rule_send_guard(ctx)
     rule_registry_reset(ctx)
+    rule_pending_offsets(ctx)
     rule_error_tables(ctx)
     c01.rule_errno_unique(ctx, "error-effects")
     c02.rule_future_ownership(ctx)
